@@ -57,7 +57,7 @@ def case_frame(seed, out, spec, wd):
     gg = graphs.GraphGen(r, hostile_p=0.0, max_depth=r.pick([1, 2, 3]), width=r.pick([2, 3, 5]))
     values = [gg.value() for _ in names]
     depth = r.pick([1, 1, 2, 3, 5, 8, 12])
-    method = r.chance(0.3)
+    method = r.pick([False, False, False, True, True, 'falsy_len', 'falsy_bool'])
     frame_type = r.pick([None, 'single_frame', 'all_frame', 'no_frame'])
     wl = []
     if nloc >= 1 and r.chance(0.7):
